@@ -103,7 +103,7 @@ func runChild(file string, only int) ([]CaseObs, *crash) {
 	if only >= 0 {
 		args = append(args, "-only", fmt.Sprint(only))
 	}
-	cmd := exec.Command(os.Args[0], args...)
+	cmd := hx.Supervised(exec.Command(os.Args[0], args...))
 	cmd.Env = append(os.Environ(), "GOMEMLIMIT=3GiB")
 	var stderr strings.Builder
 	cmd.Stderr = &stderr
